@@ -5,6 +5,7 @@ package main
 import (
 	"verif/vlib"
 
+	_ "verif/echecks/npipes"
 	_ "verif/echecks/pipes"
 )
 
